@@ -217,6 +217,9 @@ def binop(ex, op, a, b):
         if op == "Add":
             return path_concat(ex, a, b)
         raise Unsupported(f"operator {op} on a path")
+    # arithmetic with None: TypeError (python semantics; the mandoline workers rely on it for fidx = None)
+    if (a is None and (is_z3(b) or isinstance(b, (int, float)))) or (b is None and (is_z3(a) or isinstance(a, (int, float)))):
+        raise SymRaise("TypeError", f"unsupported operand type(s) for {op}: NoneType")
     # strings
     if isinstance(a, (str, SStr)) and isinstance(b, (str, SStr)) and op == "Add":
         return sconcat(ex, [a, b])
@@ -450,6 +453,18 @@ def compare(ex, op, a, b):
     if isinstance(a, FuncVal) or isinstance(b, FuncVal):
         r = a == b
         return r if op == "Eq" else not r
+    if type(a).__name__ == "DType" or type(b).__name__ == "DType":
+        def dn(x):
+            if type(x).__name__ == "DType":
+                return x.name
+            from .exec import LibFn
+            if isinstance(x, LibFn) and x.mod == "builtins":
+                return {"int": "int", "float": "f8", "bool": "bool", "str": "str", "object": "object"}.get(x.attr, x.attr)
+            if isinstance(x, str):
+                return {"float64": "f8", "int64": "int", "float": "f8"}.get(x, x)
+            return None
+        r = dn(a) is not None and dn(a) == dn(b)
+        return r if op == "Eq" else not r
     if (isinstance(a, SymSeq) or isinstance(b, SymSeq)) and op in ("Eq", "NotEq") and \
             isinstance(a, (SymSeq, list)) and isinstance(b, (SymSeq, list)):
         la = a.length if isinstance(a, SymSeq) else len(a)
@@ -527,7 +542,22 @@ def _list_getitem(ex, lst, key):
     if isinstance(key, SSlice):
         parts = [as_const(p) if is_z3(p) else p for p in (key.start, key.stop, key.step)]
         if any(p is None and q is not None for p, q in zip(parts, (key.start, key.stop, key.step))):
-            raise Unsupported("symbolic slice of a concrete list")
+            # slicing never raises (step 0 excepted): the selected sub-list has a symbolic length
+            step = 1 if key.step is None else key.step
+            if is_z3(step):
+                ex.ctx.check_or_raise(to_z3(step) != 0, "ValueError", "slice step cannot be zero")
+            s_, e_, st_ = slice_indices(key, len(lst))
+            n_ = slice_len(s_, e_, st_)
+
+            def get(i, lst=lst, s_=s_, st_=st_):
+                pos = s_ + i * st_
+                if all(_is_scalar(x) for x in lst):
+                    r = lst[-1]
+                    for j in range(len(lst) - 2, -1, -1):
+                        r = zite(to_z3(pos) == j, lst[j], r)
+                    return r
+                raise Unsupported("element of a symbolic slice of a list of structured values")
+            return SymSeq(simp(to_z3(n_)), get, "list")
         return lst[slice(*parts)]
     if is_intlike(key):
         c = as_const(key) if is_z3(key) else key
@@ -575,6 +605,8 @@ def getitem(ex, obj, key):
     if isinstance(obj, Vec):
         if isinstance(key, SSlice) or is_intlike(key):
             r = _list_getitem(ex, obj.items, key)
+            if isinstance(r, SymSeq):
+                return r
             return Vec(r, obj.kind) if isinstance(key, SSlice) else r
         if obj.kind == "array":
             return nd_getitem(ex, as_ndarray(obj), key, prefer_vec=True)
